@@ -14,9 +14,10 @@ BINOPS = [("OR", "or", 0), ("XOR", "xor", 1), ("AND", "and", 2), ("&", "and", 2)
 
 
 class G_:
-    def __init__(self, rng, depth=3):
+    def __init__(self, rng, depth=3, empties=True):
         self.rng = rng
         self.depth = depth
+        self.empties = empties      # write empty statements and allow bodies made of them only
 
     def name(self, p="v"):
         return "%s%d" % (p, self.rng.randrange(40))
@@ -35,6 +36,8 @@ class G_:
             return "i:" + v, [lit(d)]
         if r < 0.85:
             b = self.rng.choice(["TRUE", "FALSE"])
+            if self.rng.random() < 0.4:
+                return "b:" + b.lower(), [kw("BOOL"), G, sym("#"), G, kw(b)]
             return "b:" + b.lower(), [kw(b)]
         s = self.rng.choice(["", "a", "str", "x y", "(*c*)", "q$$", "END_IF"])
         q = self.rng.choice(["'", '"'])
@@ -102,15 +105,17 @@ class G_:
     def stmts(self, d, minimum):
         """(list of sexps, lexemes) of a statement list; minimum 0 allows the empty list (no token at all)"""
         n = self.rng.choice([0, 1, 1, 2, 3]) if d < self.depth else self.rng.choice([0, 1])
+        if not self.empties and minimum > 0:
+            n = max(n, 1)
         out, lx = [], []
         for _ in range(n):
-            if self.rng.random() < 0.15:
+            if self.empties and self.rng.random() < 0.15:
                 lx.append(sym(";"))
             s, l, endif = self.stmt(d)
             out.append(s)
             lx += l
             lx.append(OS if endif else sym(";"))
-        if self.rng.random() < 0.15 or (not lx and minimum > 0):
+        if (self.empties and self.rng.random() < 0.15) or (not lx and minimum > 0):
             lx.append(sym(";"))
         return out, lx
 
